@@ -446,3 +446,88 @@ Proof.
   destruct (arch =? 12); [vm_compute; reflexivity|]. destruct (arch =? 32771); [vm_compute; reflexivity|].
   destruct (arch =? 1); [vm_compute; reflexivity|reflexivity].
 Qed.
+
+(* ---------------------------------------------------------------- any accepted file: the index in terms of the served streams *)
+Lemma file_streams rc bs v d : decode_dump bs = Some v -> dump_of_bytes rc bs = Some d ->
+  d_time d = v_time v /\
+  d_modules d = map module_of (sres_list (v_modules v)) /\
+  d_unloaded d = map unloaded_of (sres_list (v_unloaded v)) /\
+  process_id d = match sres_opt (v_misc v) with
+                 | Some mi => if Z.testbit (nth 1 (snd mi) 0) 0 then Some (nth 2 (snd mi) 0) else None
+                 | None => option_map status_pid (sres_opt (v_lx_status v))
+                 end /\
+  process_create_time d = match sres_opt (v_misc v) with
+                          | Some mi => if Z.testbit (nth 1 (snd mi) 0) 1 then Some (nth 3 (snd mi) 0) else None
+                          | None => None
+                          end /\
+  forall i cs, nth_error (threads_of d) i = Some cs ->
+    cs_name cs = get_name (map tname_of (sres_list (v_tnames v))) (cs_id cs) /\
+    (bp_dump_tid (sres_opt (v_breakpad v)) = Some (cs_id cs) <-> cs_info cs = CsDumpThreadSkipped).
+Proof.
+  intros Hv Hd. rewrite (bytes_of_view rc bs v Hv) in Hd. unfold dump_of_view in Hd.
+  destruct (sres_opt (v_sysinfo v)) as [s|] eqn:Hs; [|unfold dump_of_streams in Hd; destruct (sres_opt (v_threads v)); discriminate].
+  destruct (sres_opt (v_threads v)) as [ts|] eqn:Ht; [|discriminate].
+  cbn [dump_of_streams] in Hd. inversion Hd as [Hd']. clear Hd.
+  pose proof (streams_pid_time rc (v_endian v) (v_time v) s ts (sres_list (v_tnames v)) (sres_opt (v_exception v))
+                (sres_opt (v_breakpad v)) (sres_opt (v_misc v)) (sres_opt (v_lx_status v)) (sres_list (v_modules v)) (sres_list (v_unloaded v)))
+    as (H1 & H2 & H3).
+  pose proof (streams_threads rc (v_endian v) (v_time v) s ts (sres_list (v_tnames v)) (sres_opt (v_exception v))
+                (sres_opt (v_breakpad v)) (sres_opt (v_misc v)) (sres_opt (v_lx_status v)) (sres_list (v_modules v)) (sres_list (v_unloaded v)))
+    as (_ & H4).
+  split; [exact H3|]. split; [reflexivity|]. split; [reflexivity|]. split; [exact H1|]. split; [exact H2|].
+  intros i cs Hcs. destruct (H4 i cs Hcs) as (t & _ & Hid & Hname & Hskip). rewrite Hid. split; [exact Hname|exact Hskip].
+Qed.
+
+(* ---------------------------------------------------------------- byte order *)
+Lemma model_forget_ctx rc e1 e2 m : option_map forget_ctx (dump_of_model rc e1 m) = option_map forget_ctx (dump_of_model rc e2 m).
+Proof.
+  unfold dump_of_model, dump_of_streams. destruct (m_threads m) as [ts|]; [|reflexivity]. destruct (m_sysinfo m) as [s|]; [|reflexivity].
+  cbn [option_map]. f_equal. unfold forget_ctx. cbn [d_platform d_arch d_time d_threads d_names d_exc d_bp d_misc d_status d_modules d_unloaded d_mems].
+  f_equal.
+  - rewrite !map_map. apply map_ext. intro t. reflexivity.
+  - destruct (m_exception m); reflexivity.
+Qed.
+
+Lemma bytes_byte_order rc m : wf_model LE m = true -> wf_model BE m = true ->
+  option_map forget_ctx (dump_of_bytes rc (encode_dump LE m)) = option_map forget_ctx (dump_of_bytes rc (encode_dump BE m)).
+Proof. intros H1 H2. rewrite (bytes_roundtrip rc LE m H1), (bytes_roundtrip rc BE m H2). apply model_forget_ctx. Qed.
+
+(* what does not look at the contexts *)
+Lemma forget_dump_tid d : dump_tid (forget_ctx d) = dump_tid d.
+Proof. reflexivity. Qed.
+Lemma forget_target_tid d : target_tid (forget_ctx d) = target_tid d.
+Proof. unfold target_tid, req_tid, forget_ctx. cbn [d_exc d_bp]. destruct (d_exc d); reflexivity. Qed.
+
+Lemma forget_walk d : forall ts i req,
+  snd (walk_threads (forget_ctx d) i (map forget_thread_ctx ts) req) = snd (walk_threads d i ts req) /\
+  map cs_id (fst (walk_threads (forget_ctx d) i (map forget_thread_ctx ts) req)) = map cs_id (fst (walk_threads d i ts req)) /\
+  map cs_name (fst (walk_threads (forget_ctx d) i (map forget_thread_ctx ts) req)) = map cs_name (fst (walk_threads d i ts req)).
+Proof.
+  induction ts as [|t ts IH]; intros i req; [repeat split|].
+  cbn [map walk_threads]. unfold one_thread. rewrite forget_dump_tid, forget_target_tid. cbn [t_id forget_thread_ctx].
+  change (d_names (forget_ctx d)) with (d_names d).
+  destruct (oz_eqb (dump_tid d) (t_id t)).
+  - specialize (IH (S i) req). destruct (walk_threads (forget_ctx d) (S i) (map forget_thread_ctx ts) req) as [a b].
+    destruct (walk_threads d (S i) ts req) as [a' b']. cbn [fst snd map cs_id cs_name] in *. destruct IH as (H1 & H2 & H3).
+    rewrite H1, H2, H3. repeat split.
+  - destruct (oz_eqb (target_tid d) (t_id t)).
+    + specialize (IH (S i) (Some i)). destruct (walk_threads (forget_ctx d) (S i) (map forget_thread_ctx ts) (Some i)) as [a b].
+      destruct (walk_threads d (S i) ts (Some i)) as [a' b']. cbn [fst snd map cs_id cs_name] in *. destruct IH as (H1 & H2 & H3).
+      rewrite H1, H2, H3. repeat split.
+    + specialize (IH (S i) req). destruct (walk_threads (forget_ctx d) (S i) (map forget_thread_ctx ts) req) as [a b].
+      destruct (walk_threads d (S i) ts req) as [a' b']. cbn [fst snd map cs_id cs_name] in *. destruct IH as (H1 & H2 & H3).
+      rewrite H1, H2, H3. repeat split.
+Qed.
+
+Lemma forget_index d :
+  requesting_thread (forget_ctx d) = requesting_thread d /\
+  map cs_id (threads_of (forget_ctx d)) = map cs_id (threads_of d) /\
+  map cs_name (threads_of (forget_ctx d)) = map cs_name (threads_of d) /\
+  process_id (forget_ctx d) = process_id d /\ process_create_time (forget_ctx d) = process_create_time d /\
+  (forall lk o c x, crash_reason lk o c (forget_exc_ctx x) = crash_reason lk o c x /\ crash_address o c (forget_exc_ctx x) = crash_address o c x).
+Proof.
+  unfold requesting_thread, threads_of. change (d_threads (forget_ctx d)) with (map forget_thread_ctx (d_threads d)).
+  destruct (forget_walk d (d_threads d) 0%nat None) as (H1 & H2 & H3).
+  split; [exact H1|]. split; [exact H2|]. split; [exact H3|]. split; [reflexivity|]. split; [reflexivity|].
+  intros lk o c x. destruct x. split; reflexivity.
+Qed.
